@@ -153,7 +153,7 @@ Step(s, e) ==
                       [] ty = "CoseSign" /\ e.m = "tbs_data" -> Sign_Tbs(x, e.aad, x.sigs[e.which + 1])
                       [] ty = "CoseSign" /\ e.m = "tbs_detached_data" -> Sign_TbsDetached(x, e.pl, e.aad, x.sigs[e.which + 1]))
     [] e.ev = "verify" ->
-         LET x == s.mem.val ty == s.mem.ty IN
+         (LET x == s.mem.val ty == s.mem.ty IN
          CASE ty = "CoseSign1" /\ e.m = "verify_signature" -> Handed(s, x.sig, Sign1_Tbs(x, e.aad), e.res)
            [] ty = "CoseSign1" /\ e.m = "verify_detached_signature" -> Handed(s, x.sig, Sign1_TbsDetached(x, e.pl, e.aad), e.res)
            [] ty = "CoseSign" /\ e.m = "verify_signature" ->
@@ -168,7 +168,7 @@ Step(s, e) ==
                 ELSE Handed(s, x.cipher[1], Enc_Aad(ty, x, e.aad), e.res)
            [] ty = "CoseRecipient" /\ e.m = "decrypt" ->
                 IF x.cipher = <<>> THEN [s EXCEPT !.out = OutPanic]
-                ELSE Handed(s, x.cipher[1], Recipient_Aad(x, e.ctx, e.aad), e.res)
+                ELSE Handed(s, x.cipher[1], Recipient_Aad(x, e.ctx, e.aad), e.res))
     [] e.ev = "struct" ->
          Queried(s, CASE e.fn = "sig" -> SigStructure(e.ctx, e.body, e.signp, e.aad, e.pl)
                       [] e.fn = "mac" -> MacStructure(e.ctx, e.body, e.aad, e.pl)
